@@ -328,7 +328,9 @@ int aws_xml_node_traverse(
         };
 
         if (s_load_node_decl(parser, &decl_body, &next_node)) {
-            return AWS_OP_ERR;
+            /* remembered like every other failure: a callback that does not hand the result of a nested traversal
+             * back must not turn a refused element into a successful parse */
+            goto error;
         }
 
         if (on_node_encountered(&next_node, user_data)) {
